@@ -38,7 +38,8 @@ def strip_casts(e):
 class Lin:
     """translation of expressions / relations into linear constraints"""
 
-    def __init__(self):
+    def __init__(self, facts=None):
+        self.facts = facts       # needed only to apply closures inside Option / Result combinators
         self.atoms = {}          # canonical expr -> index
         self.names = []
         self.side = []           # side constraints discovered while linearising (min/max/saturating_sub)
@@ -80,7 +81,30 @@ class Lin:
         if _call_name(e) in ("expect", "unwrap", "unwrap_unchecked") and e[2] and _call_name(e[2][0]) in ("checked_add", "checked_sub"):
             inner = e[2][0]
             return self.form(("bin", "Add" if _call_name(inner) == "checked_add" else "Sub", inner[2][0], inner[2][1]))
+        # usize::try_from(x) / u64::try_from(x) between unsigned integers: the Ok payload is x itself
+        if _is(e, "field") and e[2] in (0, "0") and _is(e[1], "variant") and e[1][2] == "Ok" and _call_name(e[1][1]) == "try_from" and e[1][1][2]:
+            return self.form(e[1][1][2][0])
         nm = _call_name(e)
+        if nm in ("unwrap_or", "unwrap_or_else", "map_or") and (_is(e, "call") and ("option::Option" in e[1] or "result::Result" in e[1])) and self.facts is not None:
+            # Option / Result combinators: an atom defined by cases (flow.expand_combinators gives the guarded alternatives)
+            from .flow import expand_combinators
+            alts = expand_combinators(e, self.facts)
+            if alts:
+                i = self.atom(e)
+                if i not in self.cases:
+                    self.cases[i] = None          # re-entrancy guard
+                    cs = []
+                    for val, rels in alts:
+                        c = []
+                        for r in rels:
+                            c.extend(self.relation(r))
+                        fv, kv = self.form(val)
+                        d1 = dict(fv); d1[i] = d1.get(i, 0) - 1           # val - A >= 0
+                        d2 = {a: -c_ for a, c_ in fv.items()}; d2[i] = d2.get(i, 0) + 1   # A - val >= 0
+                        c.append((d1, kv)); c.append((d2, -kv))
+                        cs.append(c)
+                    self.cases[i] = cs
+                return {i: Fraction(1)}, Fraction(0)
         if nm in ("min", "max") and len(e[2]) == 2:
             i = self.atom(e)
             forms = []
@@ -162,7 +186,7 @@ class Lin:
                 bad = (op == "truth" and c != d) or (op == "notin" and d in v) or (op == "eq" and isinstance(c, int) and c != d) \
                     or (op == "ne" and isinstance(c, int) and c == d)
                 return [({}, Fraction(-1))] if bad else []
-        if op == "notin" and _is(r[1], "discr") and _call_name(r[1][1]) in ("checked_add", "checked_sub") and r[2] in ((0,), (1,)):
+        if op == "notin" and _is(r[1], "discr") and _call_name(r[1][1]) in ("checked_add", "checked_sub", "try_from") and r[2] in ((0,), (1,)):
             return self.relation(("truth", r[1], 1 - r[2][0]))           # Option has two variants
         if op == "le":
             out.append(self.diff(r[2], r[1]))
@@ -187,6 +211,10 @@ class Lin:
                         out.append(self.diff(("bin", "Add", a, b), ("const", USIZE_MAX), -1))
                 elif e[1].startswith("Sub"):
                     out.append(self.diff(a, b) if v == 0 else self.diff(b, a, -1))
+            elif _is(e, "discr") and _call_name(e[1]) == "try_from" and e[1][2] and v in (0, 1):
+                # Result<usize, _> of an unsigned conversion: Ok (0) iff the value fits
+                x = e[1][2][0]
+                out.append(self.diff(("const", USIZE_MAX), x) if v == 0 else self.diff(x, ("const", USIZE_MAX), -1))
             elif _is(e, "discr") and _call_name(e[1]) in ("checked_add", "checked_sub") and v in (0, 1):
                 a, b = e[1][2][0], e[1][2][1]
                 if _call_name(e[1]) == "checked_add":
@@ -265,8 +293,8 @@ def infeasible(cons, limit=4000):
 class State:
     """hypotheses + path relations; `refuted()` = the path cannot be taken; `entails(rel)` = every state satisfies rel"""
 
-    def __init__(self, relations=(), lin=None):
-        self.lin = lin or Lin()
+    def __init__(self, relations=(), lin=None, facts=None):
+        self.lin = lin or Lin(facts)
         self.cons = []
         self.nes = []
         for r in relations:
@@ -282,7 +310,7 @@ class State:
 
     def _combos(self):
         """the case splits that define min / max / saturating_sub exactly (at most 5 atoms are split: 32 combinations)"""
-        keys = sorted(self.lin.cases)[:5]
+        keys = [k for k in sorted(self.lin.cases) if self.lin.cases[k]][:5]
         combos = [[]]
         for k in keys:
             combos = [c + alt for c in combos for alt in self.lin.cases[k]]
